@@ -227,7 +227,7 @@ pub fn run(ctx: &mut Ctx) {
     }
     // long alternative lists (17..300 alternatives, some 3000), written out and as results
     ctx.stratum("L-long-alternative-lists", false);
-    let n = ctx.tier.n(60, 2_000);
+    let n = ctx.tier.n(60, 500);
     for i in 0..n {
         if !ctx.take() {
             continue;
